@@ -52,21 +52,6 @@ Theorem C05_array_front_back_guard_exact : forall n, 0 <= n ->
 Proof. intros n H. unfold array_front, array_back, pre_nonempty. repeat split; try reflexivity; apply Bool.eq_true_iff_eq; rewrite Bool.negb_true_iff, Z.eqb_neq, Z.ltb_lt; split; intro; auto with zarith. Qed.
 Print Assumptions C05_array_front_back_guard_exact.
 
-(* chrono::day{d} / month{m}: the guard d < 255 equals the documented range [0, 255] for every unsigned value except
-   255 itself, where it fires although the value is documented as valid (recorded known finding
-   KF-C05-day-month-255-fires, the same defect as KF-C11-day-month-ctor-255) *)
-Theorem C05_day_month_ctor_guard_exact_except_255 : forall d, 0 <= d < 4294967296 -> d <> 255 ->
-  day_ctor d = pre_day_month d /\ month_ctor d = pre_day_month d.
-Proof.
-  intros d H N. unfold day_ctor, month_ctor, pre_day_month, wrapu. change (2 ^ 32) with 4294967296.
-  rewrite Z.mod_small by auto with zarith. split; apply Bool.eq_true_iff_eq; rewrite Z.ltb_lt, Z.leb_le; split; intro; auto with zarith.
-Qed.
-Print Assumptions C05_day_month_ctor_guard_exact_except_255.
-
-Theorem C05_day_month_ctor_255_refuted : exists d, 0 <= d < 4294967296 /\ day_ctor d <> pre_day_month d /\ month_ctor d <> pre_day_month d.
-Proof. exists 255. vm_compute. repeat split; discriminate. Qed.
-Print Assumptions C05_day_month_ctor_255_refuted.
-
 (* operator->: optional's is total as documented (never fires, nothing to fire for); expected's has no check although
    std::expected::operator-> requires has_value() (recorded known finding KF-C05-expected-arrow-unchecked) *)
 Theorem C05_optional_arrow_total : forall engaged, opt_arrow engaged = pre_opt_arrow engaged.
